@@ -12,7 +12,7 @@ HOW_G = "gemclus.gemini.<Class>(ovo, kernel/metric='precomputed')(P, A, return_g
 HOW_F = ("harness.props.c17.build(input) -> (estimator, X, y); monitor = sweep_lib.Monitor(estimator); estimator.fit(X, y) "
          "(or .path(X, **input['path'])); np.isfinite over _get_weights(), predict_proba(X), score(X)")
 
-FAMILIES = ["scale1000", "scale1e-3", "const_col", "zero_col", "dup_col", "identical_rows", "dup_rows", "K=n", "K=1",
+FAMILIES = ["zero_group", "scale1000", "scale1e-3", "const_col", "zero_col", "dup_col", "identical_rows", "dup_rows", "K=n", "K=1",
             "batch1", "saturated"]
 
 
@@ -200,6 +200,14 @@ def family_case(rs, fam, name):
         X[:, 1] = float(rs.choice([1.0, -2.5, 1000.0]))
     elif fam == "zero_col":
         X[:, 1] = 0.0
+    elif fam == "zero_group":
+        # two all-zero columns (zero gradient) under a penalty that eliminates them within a few steps, then further steps on the
+        # exactly-zero rows; for the sparse estimators the two columns are declared as one feature group
+        X[:, 1] = 0.0
+        X[:, 2] = 0.0
+        kw.update(max_iter=10, learning_rate=0.05, solver="sgd")
+        if name.startswith("Sparse"):
+            kw.update(alpha=5.0, groups=[[1, 2]])
     elif fam == "dup_col":
         X[:, 2] = X[:, 0]
     elif fam == "identical_rows":
